@@ -28,6 +28,7 @@ type handlerRef struct {
 	opcodes []int64
 	name    string // handler method name
 	insts   []string
+	instOps map[string]int64 // mnemonic -> the opcode it is dispatched under
 }
 
 // dispatchersOf maps format -> dispatcher method for an ALU (from Run's switch).
@@ -241,10 +242,11 @@ func runC03(c *core.Ctx) core.Meta {
 					}
 				}
 				for cl := range uniq {
-					h := handlerRef{alu: a, format: format, opcodes: oc.values, name: cl}
+					h := handlerRef{alu: a, format: format, opcodes: oc.values, name: cl, instOps: map[string]int64{}}
 					for _, op := range oc.values {
 						if r, ok := t.Lookup(format, op); ok {
 							h.insts = append(h.insts, r.Name)
+							h.instOps[r.Name] = op
 						}
 					}
 					handlers = append(handlers, h)
@@ -621,8 +623,9 @@ func runC03(c *core.Ctx) core.Meta {
 		"nge": "LU", "nlg": "EU", "ngt": "LEU", "nle": "GU", "neq": "LGU", "nlt": "EGU", "tru": "LEGU", "t": "LEGU"}
 	seen8 := map[string]bool{}
 	type cmpJob struct {
-		h handlerRef
-		m []string
+		h  handlerRef
+		m  []string
+		op int64
 	}
 	var jobs []cmpJob
 	for _, h := range handlers {
@@ -631,7 +634,7 @@ func runC03(c *core.Ctx) core.Meta {
 				key := h.alu.pkg + "." + h.name + "|" + mm[2] + mm[3] + mm[4]
 				if !seen8[key] {
 					seen8[key] = true
-					jobs = append(jobs, cmpJob{h, mm})
+					jobs = append(jobs, cmpJob{h, mm, h.instOps[n]})
 				}
 			}
 		}
@@ -768,30 +771,21 @@ func runC03(c *core.Ctx) core.Meta {
 		}
 		for i := 0; i < len(domain); i++ {
 			k := domain[i]
-			reach := map[*ssa.BasicBlock]bool{}
-			var walk func(b *ssa.BasicBlock)
-			walk = func(b *ssa.BasicBlock) {
-				if reach[b] {
-					return
-				}
-				reach[b] = true
-				if iff, ok := b.Instrs[len(b.Instrs)-1].(*ssa.If); ok {
-					if bo, ok := iff.Cond.(*ssa.BinOp); ok {
-						if ci, ok := cmps[bo]; ok {
-							if holds(bo.Op, ci.mirror, k) {
-								walk(b.Succs[0])
-							} else {
-								walk(b.Succs[1])
-							}
-							return
-						}
+			// the blocks the handler can execute for this mnemonic (a handler shared by several
+			// compares selects the relation by the opcode or the name) under the ordering k; a
+			// relation computed into a variable is known from the edge the path took
+			blocks, _ := rowReachEdgesWith(fn, job.op, m[0], func(v ssa.Value) (bool, bool) {
+				if bo, ok := v.(*ssa.BinOp); ok {
+					if ci, ok := cmps[bo]; ok {
+						return holds(bo.Op, ci.mirror, k), true
 					}
 				}
-				for _, sc := range b.Succs {
-					walk(sc)
-				}
+				return false, false
+			})
+			reach := map[*ssa.BasicBlock]bool{}
+			for _, b := range blocks {
+				reach[b] = true
 			}
-			walk(fn.Blocks[0])
 			for _, sb := range setBlocks {
 				if reach[sb] {
 					got += string(k)
